@@ -213,16 +213,24 @@ func (fs *FS) rename(oldname, newname string) error {
 	if !ok {
 		return &hackpadfs.LinkError{Op: "rename", Old: oldname, New: newname, Err: hackpadfs.ErrPermission}
 	}
-	defer func() { _ = newFile.Close() }()
 	_, err = io.Copy(newFileWriter, oldFile)
+	if err == nil {
+		// an existing destination file keeps its own mode when opened, carry the source's mode over like a real rename
+		err = hackpadfs.ChmodFile(newFile, oldInfo.Mode())
+		if errors.Is(err, hackpadfs.ErrNotImplemented) {
+			err = nil
+		}
+	}
+	closeErr := newFile.Close() // a failed close means the copy may not have been stored
+	if err == nil {
+		err = closeErr
+	}
+	if err == nil {
+		err = hackpadfs.Remove(oldMount, oldSubPath)
+	}
 	if err != nil {
+		// the file stays where it was: don't leave a copy behind
 		_ = hackpadfs.Remove(newMount, newSubPath)
-		return err
 	}
-	// an existing destination file keeps its own mode when opened, carry the source's mode over like a real rename
-	err = hackpadfs.ChmodFile(newFile, oldInfo.Mode())
-	if err != nil && !errors.Is(err, hackpadfs.ErrNotImplemented) {
-		return err
-	}
-	return hackpadfs.Remove(oldMount, oldSubPath)
+	return err
 }
